@@ -173,7 +173,14 @@ func (a *addHandler) ServeHTTP(w http.ResponseWriter, r *http.Request) {
 // Returns an appropriate HTTP status code, response body, and Content Type representing the outcome.
 func (a *addHandler) handleUpdate(ctx context.Context, logID string, origin string, oldSize uint64, newCP []byte, proof [][]byte) (int, []byte, string, error) {
 	trusted, updateErr := a.w.Update(ctx, logID, oldSize, newCP, proof)
-	// Whatever happened, we usually get the latest trusted CP from the witness (whether it's the old one or the one we've just updated to).
+	// Some refusals are made before the witness looks at its stored state, and so come without a checkpoint:
+	switch updateErr {
+	case witness.ErrUnknownLog:
+		return http.StatusNotFound, nil, "", nil
+	case witness.ErrNoValidSignature:
+		return http.StatusForbidden, nil, "", nil
+	}
+	// Whatever else happened, we usually get the latest trusted CP from the witness (whether it's the old one or the one we've just updated to).
 	// If we get nothing at all, then something's gone quite wrong.
 	if trusted == nil {
 		return http.StatusInternalServerError, nil, "", fmt.Errorf("something went quite wrong during update: %v", updateErr)
